@@ -236,6 +236,11 @@ package resolver
 //@   # C01: the outer reply adopts the target leg's rcode WHATEVER it is - a target zone that failed validation comes
 //@   # back as SERVFAIL and must surface as SERVFAIL, not as the outer zone's NOERROR with a dangling alias
 //@   possible at store dns.MsgHdr.Rcode#1: targetMsg.Rcode == dns.RcodeServerFailure
+//@   # C07 ("no record owned outside the zone whose servers sent it is ... relayed"): EVERY way out of answer() that returns
+//@   # a reply passes through clearAdditional - the alias-to-NODATA exit included - so nothing of the outer reply's
+//@   # authority and additional sections travels on; what the reply carries there afterwards is the target's own proof
+//@   assert at store dns.Msg.Ns#2: calls("(*middleware/resolver.Resolver).clearAdditional") == 1
+//@   assert at store dns.Msg.Ns#3: calls("(*middleware/resolver.Resolver).clearAdditional") == 1
 //@   assert at call (*middleware.ResponseMeta).BoundCutFor#1: arg0 == lastret("middleware.ResponseMetaFrom") && arg1 == lastret("(*middleware.ResponseMeta).Cut") && arg2 == lastret("(*middleware.ResponseMeta).Cut", 1)
 //@   assert at call (*middleware.ResponseMeta).Cut#1: arg0 == targetCut && targetCut == lastret("(*middleware/resolver.Resolver).checkDname", 1)
 //@
